@@ -197,6 +197,16 @@ SendExplicit(acct, scope, mc, S) ==
            ELSE /\ UNCHANGED <<st, spentBy, sends, tip, locked, leased>>
                 /\ Step("SendExplicit", a, "refused")
 
+(* the caller lists the same (eligible) output twice: "no output is used     *)
+(* twice in one transaction" - the request is for more than the output is    *)
+(* worth once, so the only answers the property allows are refusals          *)
+SendDup(acct, scope, mc, c) ==
+    /\ Len(sends) < MaxSends
+    /\ c \in Eligible(acct, scope, mc)
+    /\ UNCHANGED <<st, spentBy, sends, tip, locked, leased>>
+    /\ Step("SendDup", [acct |-> acct, scope |-> scope, mc |-> mc, c |-> c, n |-> Len(sends) + 1,
+                        elig |-> Eligible(acct, scope, mc)], "refused")
+
 (* PSBT funding with inputs chosen by the caller (Wallet.FundPsbt): nothing  *)
 (* is recorded or broadcast; the selection is refused unless every input is  *)
 (* eligible for the request.                                                 *)
@@ -228,6 +238,7 @@ Next ==
     \/ On("Lease") /\ \E c \in LockCoins, id \in 1..2 : Lease(c, id) \/ Release(c, id)
     \/ On("Send") /\ \E acct \in Accts, scope \in Scopes, mc \in 0..2, k \in 1..3, ans \in Answers : Send(acct, scope, mc, k, ans)
     \/ On("SendExplicit") /\ \E acct \in Accts, scope \in Scopes, mc \in 0..1, S \in SUBSET Coin : Cardinality(S) <= 2 /\ SendExplicit(acct, scope, mc, S)
+    \/ On("SendExplicit") /\ \E acct \in Accts, scope \in Scopes, c \in Base : SendDup(acct, scope, 0, c)
     \/ On("FundOwn") /\ \E acct \in Accts, scope \in Scopes, c \in Base : FundOwn(acct, scope, 1, {c})
     \/ On("DryRun") /\ \E acct \in Accts, scope \in Scopes, mc \in 0..2 : DryRun(acct, scope, mc)
     \/ On("Restart") /\ Restart
